@@ -2,7 +2,7 @@ SPECIFICATION MSpec
 CONSTANTS
   Vouchers = {"va", "vb", "vc"}
   AmtClasses = {"1", "2", "zero", "garbage", "neg"}
-  RecvClasses = {"user", "invalid", "blocked"}
+  RecvClasses = {"user", "invalid", "blocked", "hexsender"}
   BackDenoms = {"va", "vb", "vc"}
   HookReturnsAck = TRUE
   Depth = 10
